@@ -421,6 +421,14 @@ def g_bearing_ieee(tier, seed):
 F_PI_UP = Fraction(884279719003555, 2 ** 48)      # the double pi: atan2 never exceeds it in magnitude
 
 
+def g_argforms(tier, seed):
+    from checks.c04 import argforms_generic
+    import geodepy.constants as gc
+    import geodepy.convert as cv
+    r = fresh_real  # noqa
+    return argforms_generic(PID, 'O1', 'polar2rect', lambda cv_, v: cv_.polar2rect(1000, v[0]), (('theta', 0, 359),), tier, lambda: (gc, cv))
+
+
 def groups(tier):
-    return [('joins', g_joins), ('vaconv', g_vaconv), ('atmosphere', g_atmosphere), ('co2_wiring', g_co2_wiring),
+    return [('argforms', g_argforms), ('joins', g_joins), ('vaconv', g_vaconv), ('atmosphere', g_atmosphere), ('co2_wiring', g_co2_wiring),
             ('dispersion', g_dispersion), ('params', g_params), ('vapour', g_vapour), ('bearing_ieee', g_bearing_ieee)]
